@@ -239,6 +239,11 @@ def handle (case : String) (impl : String) : Except String (String × String) :=
   match parse case with
   | .error e => .error e
   | .ok c =>
+    -- lvl `rdr`: contention runs of the real Reader: "done" is never answered while lines are buffered, nothing is lost or doubled
+    -- (the Session model's `readerDone`: collector finished AND buffer drained, read as one atomic observation)
+    if c.lvl == "rdr" then
+      .ok ("stale=0 miscounted=0", if impl == "stale=0 miscounted=0" then "ok" else "bad:reader-done-while-lines-are-buffered-or-lines-lost")
+    else
     if (c.opt.withNth || (c.opt.nth && c.delim != "2c")) && !c.query.isEmpty then .error "query-with-fields-unsupported"
     else .ok (modelOut c, verdict c impl)
 
